@@ -599,10 +599,10 @@ def run(ctx):
                 'were proper non-empty subsets of the states inside those instances (cache entries, '
                 'distinct by construction per structure).')
     if ctx.thorough:
-        payload = {'ns': [1, 2, 3], 'k_stride': 1, 'f_stride': 1, 'g_stride': 1, 'ltl_leaves': 4,
-                   'star_k': 2, 'cross_k': 2, 'cross_stride': 5}
+        payload = {'ns': [1, 2, 3], 'k_stride': 1, 'f_stride': 2, 'g_stride': 2, 'ltl_leaves': 4,
+                   'star_k': 2, 'cross_k': 2, 'cross_stride': 11}
         payload3 = None
-        ctx.scopes = ['S(1)+S(2) x full law tables (CTL k<=1 operands), S(3) see next',
+        ctx.scopes = ['S(1)+S(2) x every 2nd row and column of the law tables (CTL k<=1 operands), S(3) see next',
                       'every 40th of S(3) x strided law tables']
     else:
         payload = {'ns': [1, 2], 'k_stride': 4, 'f_stride': 7, 'g_stride': 4, 'ltl_leaves': 2,
